@@ -301,7 +301,7 @@ fn run_script(script: &[u8], abstract_states: &Mutex<BTreeSet<String>>) {
                 if verif_hooks::CHECK_FRESH.with(|c| c.get()) {
                     let ps = u.verif_persistent_state().clone();
                     let g = ps.lock().unwrap();
-                    assert!(g.tt.occupied == 0 && g.tt.occupancy() == 0, "ucinewgame returned but the shared tables were not reset ({} entries left)", g.tt.occupied);
+                    assert!((g.tt.occupied as usize) == 0 && (g.tt.occupancy() as usize) == 0, "ucinewgame returned but the shared tables were not reset ({} entries left)", (g.tt.occupied as usize));
                 }
                 assert!(u.verif_run_line(POS).unwrap());
             }
@@ -315,7 +315,7 @@ fn run_script(script: &[u8], abstract_states: &Mutex<BTreeSet<String>>) {
                 if verif_hooks::CHECK_RESIZED.with(|c| c.get()) {
                     let ps = u.verif_persistent_state().clone();
                     let g = ps.lock().unwrap();
-                    assert!(g.tt.occupied == 0, "setoption name Hash value {hash_now} was sent while no bestmove was outstanding, yet the table was not resized ({} entries of the old table left, option reads {})", g.tt.occupied, u.verif_options().hash_size);
+                    assert!((g.tt.occupied as usize) == 0, "setoption name Hash value {hash_now} was sent while no bestmove was outstanding, yet the table was not resized ({} entries of the old table left, option reads {})", (g.tt.occupied as usize), u.verif_options().hash_size);
                 }
             }
             b'F' | b'D' | b'G' => {
